@@ -111,6 +111,13 @@ class Serializable(object):  # pylint: disable=too-few-public-methods
         return result
 
     @staticmethod
+    def _get_ordered_set(set_value):
+        try:
+            return sorted(set_value)
+        except TypeError:
+            return sorted(set_value, key=repr)
+
+    @staticmethod
     def _json_result(obj):
         if isinstance(obj, enum.Enum):
             if isinstance(obj.value, CryptoDataParamsBase):
@@ -143,6 +150,8 @@ class Serializable(object):  # pylint: disable=too-few-public-methods
         elif hasattr(obj, '__dict__'):
             result = Serializable._json_traverse(obj.__dict__, result_func)
         elif isinstance(obj, (list, tuple, frozenset, set)):
+            if isinstance(obj, (frozenset, set)):
+                obj = Serializable._get_ordered_set(obj)
             result = [Serializable._json_traverse(item, result_func) for item in obj]
         else:
             result = result_func(obj)
@@ -180,7 +189,7 @@ class Serializable(object):  # pylint: disable=too-few-public-methods
         if hasattr(obj, '_asdict'):
             dict_value = obj._asdict()
             if not isinstance(dict_value, dict):
-                return False, dict_value
+                return cls._markdown_result(dict_value, level)
 
             dict_value = Serializable._filter_out_non_human_friendly(obj, dict_value, human_friendly_only=True)
         else:
@@ -257,6 +266,8 @@ class Serializable(object):  # pylint: disable=too-few-public-methods
         elif hasattr(obj, '__dict__') or isinstance(obj, dict):
             result = cls._markdown_result_complex(obj, level)
         elif isinstance(obj, (list, tuple, frozenset, set, ArrayBase)):
+            if isinstance(obj, (frozenset, set)):
+                obj = Serializable._get_ordered_set(obj)
             result = cls._markdown_result_list(obj, level)
         elif isinstance(obj, (bytes, bytearray)):
             result = cls.post_text_encoder(bytes_to_hex_string(obj, separator=':', lowercase=False), level)
